@@ -693,6 +693,23 @@ def gen_system(rng, flavour, thorough):
             other = chain_type(rng, "B", rng.randint(2, 5))
             desc["moltypes"].append(other)
             desc["molecules"].append(("B", 1))
+        # a cyclic molecule may carry further build-file restraints: every declared one has to hold
+        items = []
+        if n >= 5 and rng.random() < 0.7:
+            for _ in range(rng.choice([1, 1, 2])):
+                a = rng.randrange(n)
+                r = rng.randint(2, n // 2)
+                b = (a + r) % n
+                if any({it["ref"], it["target"]} == {a, b} for it in items):
+                    continue
+                d = round(rng.choice([0.5, 0.65, 0.8, 0.85]) * r * STEP, 2)
+                pair = (a, b) if rng.random() < 0.5 else (b, a)
+                items.append(dict(kind="dist", ref=pair[0], target=pair[1], d=d, tol=rng.choice([0.0, 0.0, 0.1])))
+        if rng.random() < 0.25:
+            items.append(dict(kind="sphere", resname=mt["resnames"][0], start=1, stop=n + 1, io="in",
+                              c=[box / 2] * 3, params=[box * 0.45]))
+        if items:
+            desc["build"] = [dict(mol="A", frm=0, to=rng.choice([count, 1]), items=items)]
         desc["options"] = dict(grid_spacing=0.5 if box > 8 else 0.25)
         return desc
     if flavour == "persist":
@@ -732,6 +749,12 @@ def gen_system(rng, flavour, thorough):
                                    items=[dict(kind="persist", lp=rng.choice([0.5, 1.0, 2.0, 4.0]),
                                                start=start, stop=stop)]))
             first += cnt
+        for blk in blocks:
+            it = blk["items"][0]
+            if it["start"] == 0 and it["stop"] >= 6 and rng.random() < 0.25:
+                # a second restraint on the same molecules, inside the restrained stretch
+                b = rng.randint(2, 3)
+                blk["items"].append(dict(kind="dist", ref=0, target=b, d=round(0.5 * b * STEP, 2), tol=0.3))
         rng.shuffle(blocks)
         desc.update(moltypes=types, molecules=molecules, box=[box] * 3, build=blocks)
         desc["options"] = dict(grid_spacing=1.0 if box > 10 else 0.5)
@@ -878,8 +901,8 @@ def run_predicates(ctx, cases):
 
 def e2e_cases(ctx):
     rng = ctx.rng
-    flavours = ["geom", "dir", "dist", "ring", "persist", "mixed", "dir"]
-    count = ctx.budget(112, 1050)
+    flavours = ["geom", "dir", "dist", "ring", "persist", "mixed", "dir", "ring"]
+    count = ctx.budget(128, 1200)
     cases = []
     for i in range(count):
         flavour = flavours[i % len(flavours)]
@@ -927,8 +950,18 @@ def run_e2e(ctx, cases, timeout=None):
             rq.append(dict(op="setdr", tree=edges,
                            ops=[dict(target=o["target"], ref=o["ref"], d=rat_str(o["d"]), avg=rat_str(o["avg"]),
                                      tol=rat_str(o["tol"])) for o in ops]))
+            want_ops = sorted([it["ref"], it["target"], sig9(it["d"]), sig9(it["tol"])] for blk in desc["build"]
+                              if blk["mol"] == mt["name"] and blk["frm"] <= mol_idx < blk["to"]
+                              for it in blk["items"] if it["kind"] == "dist")
+            got_ops = sorted([o["ref"], o["target"], sig9(o["d"]), sig9(o["tol"])] for o in ops)
+            got_declared = [o for o in got_ops if o in want_ops]
+            ctx.correspond("declared-restraints-registered", got_declared, want_ops, case)
             if mt["name"] in desc.get("cycles", []):
-                pairs = [list(k) for k in topology.distance_restraints[(mt["name"], mol_idx)]]
+                declared = [[it["ref"], it["target"]] for blk in desc["build"]
+                            if blk["mol"] == mt["name"] and blk["frm"] <= mol_idx < blk["to"]
+                            for it in blk["items"] if it["kind"] == "dist"]
+                pairs = [list(k) for k in topology.distance_restraints[(mt["name"], mol_idx)]
+                         if list(k) not in declared]
                 extra[-1] = extra[-1] + (pairs,)
         done.append((case, cap, len(reqs), len(rq), judges, extra, crossing))
         reqs += rq
